@@ -29,7 +29,8 @@ def main():
     rng = random.Random(vlib.seed())
     vlib.build_harness()
     entries = [e for e in pe.catalogue() if e["class"] in ("indicator", "strategy", "compound")]
-    cases = pe.build_cases(entries, tier, [0], rng, max_alt=1 if tier == "quick" else 4)
+    cases = pe.build_cases(entries, tier, [0], rng, max_alt=1 if tier == "quick" else 4,
+                           max_alt_multi=3 if tier == "quick" else 6)     # the boundary relations between two periods (equal, one apart)
     for c in cases:
         c.is_strategy = c.entry["class"] != "indicator"
         c.rec_len = (2 * sum(c.cfg) + 16) if c.is_strategy else 40
